@@ -118,7 +118,21 @@ def main(argv):
                'missed': [r[0] for r in out if r[1] == 'MISSED'], 'false_alarms': [r[0] for r in out if r[1] == 'FALSE-ALARM'],
                'errors': [r[0] for r in out if r[1] == 'error'], 'results': [{'name': r[0], 'verdict': r[1], 'detail': r[2][:300]} for r in out]}
     os.makedirs(os.path.join(VERIF, 'evidence'), exist_ok=True)
-    with open(os.path.join(VERIF, 'evidence', 'selftest.json'), 'w') as fh:
+    sp = os.path.join(VERIF, 'evidence', 'selftest.json')
+    if names and os.path.exists(sp):
+        # a partial run updates the entries it re-ran and keeps the others
+        try:
+            prev = json.load(open(sp))
+            ran = set(r[0] for r in out)
+            merged = [x for x in prev.get('results', []) if x['name'] not in ran] + summary['results']
+            summary = {'mutants': len(merged), 'ok': sum(1 for x in merged if x['verdict'] == 'ok'),
+                       'skipped': sum(1 for x in merged if x['verdict'] == 'skipped'),
+                       'missed': [x['name'] for x in merged if x['verdict'] == 'MISSED'],
+                       'false_alarms': [x['name'] for x in merged if x['verdict'] == 'FALSE-ALARM'],
+                       'errors': [x['name'] for x in merged if x['verdict'] == 'error'], 'results': merged}
+        except Exception:
+            pass
+    with open(sp, 'w') as fh:
         json.dump(summary, fh, indent=1)
     print('selftest: %d mutants, %d ok, %d skipped, %d missed, %d false alarms, %d errors'
           % (summary['mutants'], summary['ok'], summary['skipped'], len(summary['missed']), len(summary['false_alarms']), len(summary['errors'])))
